@@ -24,6 +24,9 @@ pub struct ExpectCase {
   /// registration for a key replaces the earlier one
   #[serde(default)]
   pub late: Vec<(u8, ClaimSpec)>,
+  /// register every third initial expectation through `extend_check_claims` (generic parser only)
+  #[serde(default)]
+  pub via_extend: bool,
 }
 
 pub struct ExpectedClaims {
@@ -128,8 +131,11 @@ impl Sub for ExpectedClaims {
       }
     }
     let mut parser = new_parser(p, c.layer);
-    for e in &specs {
-      if parser.check(e).is_ok() {
+    for (i, e) in specs.iter().enumerate() {
+      if c.via_extend && i % 3 == 2 && parser.extend_checks(&[(e.key().to_string(), e.expected())]) {
+        expect.insert(e.key().to_string(), e.expected());
+        cl.tag("registered-via-extend_check_claims");
+      } else if parser.check(e).is_ok() {
         expect.insert(e.key().to_string(), e.expected());
       }
     }
@@ -258,8 +264,8 @@ fn typed(key: &str, v: &Value, form: u8) -> ClaimSpec {
 
 fn case(proto: Proto, layer: Layer) -> BoxedStrategy<ExpectCase> {
   // base claim set S, expectations derived from it, then per-token perturbations of S
-  (gen::bytes32(), vec((key(), value()), 0..5), vec((any::<u16>(), 0u8..9, value(), any::<u8>()), 0..4), vec((0u8..6, any::<u16>(), value()), 1..=6), any::<bool>(), vec((1u8..6, any::<u16>(), 0u8..9, value(), any::<u8>()), 0..3))
-    .prop_map(move |(seed, base, exp_rel, perturb, via_builder, late_rel)| {
+  (gen::bytes32(), vec((key(), value()), 0..5), vec((any::<u16>(), 0u8..9, value(), any::<u8>()), 0..4), vec((0u8..6, any::<u16>(), value()), 1..=6), any::<bool>(), vec((1u8..6, any::<u16>(), 0u8..9, value(), any::<u8>()), 0..3), any::<bool>())
+    .prop_map(move |(seed, base, exp_rel, perturb, via_builder, late_rel, via_extend)| {
       let base_obj: serde_json::Map<String, Value> = base.iter().cloned().collect();
       let base_keys: Vec<String> = base_obj.keys().cloned().collect();
       let mut expect = vec![];
@@ -320,7 +326,7 @@ fn case(proto: Proto, layer: Layer) -> BoxedStrategy<ExpectCase> {
           payloads[0] = json!([v.clone()]); // a non-object payload
         }
       }
-      ExpectCase { proto, layer, seed, payloads, via_builder, expect, late }
+      ExpectCase { proto, layer, seed, payloads, via_builder, expect, late, via_extend }
     })
     .boxed()
 }
